@@ -93,12 +93,14 @@ def audit_sources():
     return bad
 
 
-def regenerate(res):
+def regenerate(res, prop=None):
     env = dict(os.environ, PYTHONPATH=VERIF, PYTHONHASHSEED='0')
     os.makedirs(os.path.join(COQ, 'Gen'), exist_ok=True)
     for mod, target in (('vt.tabulate', 'Tables.v'), ('vt.configs', 'Configs.v'), ('vt.rays', 'Rays.v')):
         if not os.path.exists(os.path.join(VERIF, *mod.split('.')) + '.py'):
             continue
+        if target == 'Rays.v' and prop not in (None, 'C19') and os.path.exists(os.path.join(COQ, 'Gen', target)):
+            continue        # 28 000 rays take ~16 s to compute: only the property about rays (and the full build) regenerates them
         p = subprocess.run([PY, '-m', mod], cwd=VERIF, env=env, capture_output=True, text=True, timeout=600)
         if p.returncode != 0:
             return res.fail('translate', f'translator {mod}', p.stdout[-3000:] + p.stderr[-3000:])
@@ -216,7 +218,7 @@ def ensure_built(prop=None, jobs=16, want_model=True):
     os.makedirs(BUILD, exist_ok=True)
     with open(os.path.join(BUILD, 'lock'), 'w') as lock:
         fcntl.flock(lock, fcntl.LOCK_EX)
-        regenerate(res)
+        regenerate(res, prop)
         if not res.ok:
             return res
         bad = audit_sources()
